@@ -483,13 +483,54 @@ def recorded_rounds(an):
     return list(range(len(an.rounds) - nrec, len(an.rounds)))
 
 
+def check_c02_real_clock(an):
+    """Runs on the real OS clock (no scripted source, so the real calibration and overhead code runs): timestamps are not
+    observable, but the allocator operations inside the benchmarked calls are, and with an explicit sample size the calls
+    of a thread fall into its samples in order. The record stored for a sample must be the operations of its own calls
+    (the scripted-clock runs establish that nothing else happens inside a timed section)."""
+    out = []
+    run, cfg = an.run, an.cfg
+    rep = run.report
+    if rep is None or cfg.test or cfg.tuned or cfg.s <= 0 or run.status != "ok":
+        return out, {"skipped": "OS timer: needs an explicit sample size"}
+    T, s = max(1, cfg.eff_T), cfg.s
+    per_thread = []
+    for tv in an.threads.values():
+        calls, cur = [], None
+        for ev in tv.events:
+            if ev.kind == E.CALL_BEGIN:
+                cur = []
+            elif ev.kind == E.CALL_END and cur is not None:
+                calls.append(cur)
+                cur = None
+            elif cur is not None and ev.kind == E.ALLOC_OP:
+                cur.append(ev)
+        if calls:
+            per_thread.append(calls)
+    if len(per_thread) != T or any(len(c) % s for c in per_thread) or len({len(c) for c in per_thread}) != 1:
+        return out, {"skipped": "OS timer: calls do not split into samples"}
+    nrounds = len(per_thread[0]) // s
+    if len(rep["samples"]) != nrounds * T:
+        return out, {"skipped": "OS timer: not every round was recorded"}
+    compared = 0
+    for j in range(nrounds):
+        models = [model_tally([ev for call in calls[j * s:(j + 1) * s] for ev in call]) for calls in per_thread]
+        reps = [rep["alloc"].get(j * T + i) for i in range(T)]
+        compared += T
+        if not _match_multiset(models, reps):
+            out.append(V("C02", "alloc_figures_mismatch", "real OS clock, round %d: reported allocation figures %s do not match the operations inside the samples' calls %s" % (
+                j, reps, [model_key(m) for m in models])))
+            break
+    return out, {"real_clock_runs": 1, "samples_compared": compared, "real_clock_samples_compared": compared}
+
+
 def check_c02(an):
     out = []
     run, cfg = an.run, an.cfg
     if run.status != "ok":
         return out, {"skipped": "panic run"}
     if not cfg.tsc:
-        return out, {"skipped": "OS timer: timestamps are not observable"}
+        return check_c02_real_clock(an)
     n_windows = n_alloc_in_calls = 0
     for tv in an.threads.values():
         in_window = set()
